@@ -292,7 +292,7 @@ typeadjust(struct type *t, enum typequal *tq)
 }
 
 struct member *
-typemember(struct type *t, const char *name, unsigned long long *offset)
+typemember(struct type *t, const char *name, unsigned long long *offset, enum typequal *qual)
 {
 	struct member *m, *sub;
 
@@ -301,12 +301,17 @@ typemember(struct type *t, const char *name, unsigned long long *offset)
 		if (m->name) {
 			if (strcmp(m->name, name) == 0) {
 				*offset += m->offset;
+				if (qual)
+					*qual |= m->qual;
 				return m;
 			}
 		} else {
-			sub = typemember(m->type, name, offset);
+			/* the qualifiers of an anonymous member apply to its members */
+			sub = typemember(m->type, name, offset, qual);
 			if (sub) {
 				*offset += m->offset;
+				if (qual)
+					*qual |= m->qual;
 				return sub;
 			}
 		}
